@@ -1,6 +1,7 @@
 """C15 — language-server diagnostics converge to a from-scratch workspace lint."""
 PID = "C15"
 LEVEL = "proof"
+REPLAY_OP = "lsp.history"
 RULE = ("event histories (length 1-8: open, change, create, rename, delete, config change; single events and bursts without "
         "pause to trip the rate limiter) over workspaces of 3-4 policy files that import each other (so unresolved-import / "
         "prefer-package-imports flip) incl. contents that stop parsing; the REAL LanguageServer (all workers, in-memory "
